@@ -388,6 +388,9 @@ def r2_helpers(repo, rep, cls, sites):
         s = norm(e)
         if 'isinstance(%s, int)' % bound_for_int in s and not t:
           return True
+        m_ = re.fullmatch(r'int\((.+)\) (!=|==) (.+)', s) or re.fullmatch(r'(.+) (!=|==) int\((.+)\)', s)
+        if m_ and m_.group(1) == m_.group(3):
+          return (m_.group(2) == '!=') != t    # `int(v) != v` false or `int(v) == v` true: v is integer-valued
         if not t and ('is_integer()' in s or 'int(' in s) :
           return True    # the "is not an integer" condition was false
         if t and 'is_integer()' in s and 'not ' not in s:
@@ -407,7 +410,20 @@ def r2_helpers(repo, rep, cls, sites):
           unknown_ = False
           for e_, t_ in conj:
             s_ = norm(e_)
+            # both ends at once: all(<integrality of x> for x in <the pair>) true / any(<non-integrality of x> ...) false
+            mq_ = re.fullmatch(r'(all|any)\(\(?(.+?) for (\w+) in (value|getattr\(self, attr\)|\(%s, %s\)|\[%s, %s\])\)?\)' % ((re.escape(comps_[0]), re.escape(comps_[1])) * 2), s_)
+            if mq_:
+              q_, el_, v_ = mq_.group(1), mq_.group(2), mq_.group(3)
+              pos_ = ('int(%s) == %s' % (v_, v_), '%s == int(%s)' % (v_, v_), '%s.is_integer()' % v_, 'float(%s).is_integer()' % v_, 'isinstance(%s, int)' % v_)
+              neg_ = ('int(%s) != %s' % (v_, v_), '%s != int(%s)' % (v_, v_), 'not %s.is_integer()' % v_, 'not float(%s).is_integer()' % v_, 'not int(%s) == %s' % (v_, v_))
+              if (q_ == 'all' and t_ and el_ in pos_) or (q_ == 'any' and not t_ and el_ in neg_):
+                return 'int'
+              if 'is_integer' in el_ or 'int(' in el_ or ', int)' in el_:
+                unknown_ = True
+              continue
             if not re.search(r'(?<![\w.])%s(?!\w)' % cre, s_):
+              if ('is_integer' in s_ or 'int(' in s_) and re.search(r'(?<![\w.])(value|getattr\(self, attr\))(?!\w)', s_) and not s_.startswith('isinstance('):
+                unknown_ = True       # a test of the pair as a whole in a form that is not understood
               continue
             if (not t_ and re.fullmatch(r'int\(%s\) != %s' % (cre, cre), s_)) or (t_ and re.fullmatch(r'int\(%s\) == %s' % (cre, cre), s_)) \
                 or (t_ and s_ in ('%s.is_integer()' % c_, 'isinstance(%s, int)' % c_, 'float(%s).is_integer()' % c_)):
@@ -436,6 +452,11 @@ def r2_helpers(repo, rep, cls, sites):
                        '_test_range accepts a range for an int bound on a path that never tested that its end %s is integer-valued: non-integer sizes pass' % c_, f.loc(),
                        why_open='the end %s of the range is tested in a form that is not understood on the accepting path %s' % (c_, txt[:100]))
             continue
+          # each end has an integrality literal of its own (or the quantified one over the pair) on every accepting case:
+          # stronger than the generic per-path test below, which it replaces
+          chk(True, 'R2/helper', '%s: integrality enforced when the bound is an int' % hname, f.qualname,
+              'accepting path without integrality test: ' + txt[:160], '', f.loc())
+          continue
       chk(pf.every_case_has(int_lit), 'R2/helper', '%s: integrality enforced when the bound is an int' % hname, f.qualname,
                 'accepting path without integrality test: ' + txt[:160],
                 '%s accepts a value for an int bound without an integrality test: non-integer values pass for integer-valued fields' % hname, f.loc())
